@@ -1,5 +1,6 @@
 from __future__ import annotations
 
+import math
 from typing import Any, ClassVar
 
 from attr import define
@@ -55,17 +56,24 @@ class FloatProperty(PropertyProtocol):
         )
 
     @classmethod
-    def convert_value(cls, value: Any) -> Value | None | PropertyError:
+    def convert_value(cls, value: Any) -> Value | None | PropertyError:  # noqa: PLR0911
         if isinstance(value, Value) or value is None:
             return value
         if isinstance(value, str):
             try:
                 parsed = float(value)
-                return Value(python_code=str(parsed), raw_value=value)
             except ValueError:
                 return PropertyError(f"Invalid float value: {value}")
+            if not math.isfinite(parsed):  # str() of these is a bare name (inf, nan), not a literal
+                return PropertyError(f"Invalid float value: {value}")
+            return Value(python_code=str(parsed), raw_value=value)
         if isinstance(value, float):
+            if not math.isfinite(value):
+                return PropertyError(f"Invalid float value: {value}")
             return Value(python_code=str(value), raw_value=value)
         if isinstance(value, int) and not isinstance(value, bool):
-            return Value(python_code=str(float(value)), raw_value=value)
+            try:
+                return Value(python_code=str(float(value)), raw_value=value)
+            except OverflowError:
+                return PropertyError(f"Invalid float value: {value}")
         return PropertyError(f"Cannot convert {value} to a float")
